@@ -824,7 +824,7 @@ func releaseRules(a *Anchors, r *core.Report, rule string, floor int) {
 		for _, pred := range []func(ssa.Instruction) bool{isDel, named(e.drain)} {
 			bad := reaches([]Point{{g.Blocks[0], 0}}, pred, func(in ssa.Instruction) bool {
 				ret, ok := in.(*ssa.Return)
-				return ok && (errIdx < 0 || errKind(ret.Results[errIdx]) == "nil")
+				return ok && (errIdx < 0 || maybeNilResult(ret, errIdx))
 			})
 			if bad != nil {
 				okAll = false
@@ -1116,7 +1116,7 @@ func c06NameFlag(a *Anchors, r *core.Report) {
 			return false
 		}, func(in ssa.Instruction) bool {
 			ret, ok := in.(*ssa.Return)
-			return ok && errKind(ret.Results[errIdx]) == "nil"
+			return ok && maybeNilResult(ret, errIdx)
 		})
 		if bad != nil {
 			r.Bad(rule, key, fname(g), a.P.Pos(g.Pos()), "removing a name clears the owner's registered flag", "a successful return does not clear the flag: the process cannot register another name and its termination deletes a name it no longer owns")
